@@ -49,8 +49,11 @@ def geff_to_dataframes(
 
         for name, prop in props.items():
             missing = prop["missing"]
-            # Squeeze out any singleton dimensions
-            values = prop["values"].squeeze()
+            # Squeeze out any singleton dimensions except the leading (node/edge) one
+            values = prop["values"]
+            values = values.reshape(
+                values.shape[:1] + tuple(dim for dim in values.shape[1:] if dim != 1)
+            )
             ndim = len(values.shape)
             if ndim == 2:
                 # After squeezing out singleton dimensions, second dim must be > 1
